@@ -242,7 +242,15 @@ class Engine(Core, Expr, Calls, Builtins, Stmts):
         self.obligations.append(ob)
 
     def shape_of(self, key: Optional[str]) -> Optional[str]:
-        if key is None or self.cur_contract is None:
+        if key is None:
+            return None
+        over = getattr(self, '_shape_over', None)
+        if over:
+            # clauses of a callee's contract are read with the shape hints of THAT contract
+            for sh in reversed(over):
+                if key in sh:
+                    return sh[key]
+        if self.cur_contract is None:
             return None
         return self.cur_contract.shapes.get(key)
 
